@@ -35,7 +35,9 @@ func Spec() *run.Spec {
 			"chains: one case = a gen.Mesh input (every topology, empty included) and 1–6 operations from the shared table, checked after each step; " +
 			"non-trivial = input has non-identity indices or unreferenced vertices or ≥2 attribute arities AND ≥2 operations returned a mesh; " +
 			"distinct by input descriptor + operation names. edge-inputs: one case = (operation, topology, edge class of receiver) enumerated exhaustively over the table × 6 topologies × 8 classes " +
-			"(empty, vertices without indices, single primitive, no Position, uncovered material ranges, one arity only, zero-length attributes, ordinary), arguments drawn hostile (missing attribute names, bad pool sizes); non-trivial = the operation ran to a verdict (returned or reported failure). point-filters: one case = a point cloud of a given index pattern through 1–3 filter/crop operations.",
+			"(empty, vertices without indices, single primitive, no Position, uncovered material ranges, one arity only, zero-length attributes, ordinary), arguments drawn hostile (missing attribute names, bad pool sizes); non-trivial = the operation ran to a verdict (returned or reported failure). point-filters: one case = a point cloud of a given index pattern through 1–3 filter/crop operations. " +
+			"large: one case = a point or triangle receiver with 32767 … 150000 vertices (block/batch sizes 4096·k, 16384, 32768, 65536 ± 1; the last vertices are referenced) or the result of a generator driven at such counts, " +
+			"through every deriving operation of the table once (not chained), WF + accessor sweep on every result.",
 		Assumptions: []string{
 			"well-formed = ref.WF: all attribute arrays of all arities share one length L, every index in [0,L), index count a multiple of 3 (triangles) / 4 (quads)",
 			"arguments supplied by the harness are admissible: attribute data of the common length, index lists in range, copy sources with the same vertex count; attributes are only deleted when another attribute still carries the vertices",
@@ -47,11 +49,14 @@ func Spec() *run.Spec {
 		},
 		MinNontrivial: map[string]int{"quick": 3000, "thorough": 30000},
 		MinObserved: map[string]int64{
-			"ops_returning_mesh":   50,
-			"generator_families":   20,
-			"chain_results_wf":     10000,
-			"edge_combinations":    6000,
-			"generator_results_wf": 3000,
+			"ops_returning_mesh":                   50,
+			"generator_families":                   20,
+			"chain_results_wf":                     10000,
+			"edge_combinations":                    6000,
+			"generator_results_wf":                 3000,
+			"large_cases":                          12,
+			"large_receivers_above_65535_vertices": 5,
+			"large_ops_returning_mesh":             40,
 		},
 		Phases: []run.Phase{
 			{Name: "generators", Cases: func(t string) int {
@@ -85,6 +90,12 @@ func Spec() *run.Spec {
 				}
 				return 1200
 			}, Run: pointFilters, Batch: 100, CPUBudgetS: 30},
+			{Name: "large", Cases: func(t string) int {
+				if t == "thorough" {
+					return 152
+				}
+				return 16
+			}, Run: largeCase, Batch: 1, CPUBudgetS: 300},
 		},
 	}
 }
@@ -186,13 +197,17 @@ func accessorSweep(m modeling.Mesh) *run.PanicInfo {
 			// point primitives go through the index list: a cloud with repeated or permuted
 			// indices must be readable primitive by primitive and indexable by the octree
 			_ = m.PrimitiveCount()
-			for _, a := range m.Float3Attributes() {
+			v3 := m.Float3Attributes()
+			if n > 20000 && m.HasFloat3Attribute(modeling.PositionAttribute) {
+				v3 = []string{modeling.PositionAttribute} // large clouds: one attribute, every primitive
+			}
+			for _, a := range v3 {
 				m.ScanPrimitives(func(i int, p modeling.Primitive) {
 					_ = p.BoundingBox(a)
 					_ = p.Scope(a).BoundingBox()
 				})
 			}
-			if n > 0 && m.HasFloat3Attribute(modeling.PositionAttribute) {
+			if n > 0 && n <= 20000 && m.HasFloat3Attribute(modeling.PositionAttribute) {
 				_ = m.OctTreeDepth(2)
 			}
 		default:
